@@ -17,6 +17,7 @@ import rules_text as RX
 import rules_input as RI
 import rules_grammar as RG
 import rules_helpers as RHP
+import rules_macro as RM
 
 ASSUME_COMMON = [
     "rustc's type checker, MIR construction and drop elaboration (facts are read from the compiler, -Zmir-opt-level=0)",
@@ -66,13 +67,14 @@ STRUCT = {
     "OVERRIDE-INV": RHP.rule_override_inv,
     "CTOR-INV": RHP.rule_ctor_inv,
     "PANIC-INV": RHP.rule_panic_inv,
+    "MACRO-EXPAND": RM.rule_macro_expand,
     "STREAM": RI.rule_stream,
     "INPUT-MISC": RI.rule_input_misc,
 }
 
 # "K" = the contract automata that serve this property (spec/contract_map.py)
 PROP_RULES = {
-    "C01": ["K", "D:POISON", "SEQ-PROV", "GRAMMAR", "ENTRY", "ENTRY-SIB", "CLONE-FIELDS", "MODE-PAIR", "NO-BACKTRACK", "HELPER-PROV", "READER-SIB", "INPUT-MISC", "OVERRIDE-INV"],
+    "C01": ["K", "D:POISON", "SEQ-PROV", "GRAMMAR", "ENTRY", "ENTRY-SIB", "CLONE-FIELDS", "MODE-PAIR", "NO-BACKTRACK", "HELPER-PROV", "READER-SIB", "INPUT-MISC", "OVERRIDE-INV", "MACRO-EXPAND"],
     "C02": ["K", "D:POISON", "BUILDER-PROV", "GRAMMAR", "CLONE-FIELDS", "ENTRY-SIB", "MODE-PAIR", "HELPER-PROV", "ALLOC-INV"],
     "C03": ["ENTRY", "K", "STREAM", "D:POISON", "MODE-PURE", "GRAMMAR", "ENTRY-SIB", "SUB-INPUT", "D:KEEP*", "HOOKS-WRITERS", "INPUT-MISC", "MODE-PAIR", "HELPER-PROV", "OVERRIDE-INV", "CTOR-INV", "HOOKS-SAVE-REWIND"],
     "C04": ["MODE-PAIR", "MODE-PURE", "K", "D:POISON", "ENTRY-SIB", "OVERRIDE-INV"],
@@ -87,7 +89,7 @@ PROP_RULES = {
     "C13": ["FREEZE", "STATICS", "OWN-STATE", "CLONE-FIELDS", "MODE-PAIR", "K", "NO-BACKTRACK", "HELPER-PROV", "OVERRIDE-INV", "CTOR-INV"],
     "C14": ["CHAR-SIB", "CHAR-PROV", "REGEX-ANCHOR", "K", "HOOKS-TOKEN", "SEQ-PROV", "MODE-PURE", "GRAMMAR", "HELPER-PROV", "BUILDER-PROV"],
     "C15": ["K", "SUB-INPUT", "MODE-PAIR", "BUILDER-PROV", "GRAMMAR", "HELPER-PROV"],
-    "C16": ["K", "SUB-INPUT", "D:ALT-LINEAR", "D:PFAIL", "SPAN-PROV", "SPAN-EMPTY", "SPAN-IMPL", "READER-SIB", "GRAMMAR", "MODE-PAIR", "D:POISON*", "D:KEEP*", "D:LIFO*", "MODE-PURE", "ORDER-ARMS", "ERR-SPAN", "D:ALT-POS*"],
+    "C16": ["K", "SUB-INPUT", "D:ALT-LINEAR", "D:PFAIL", "SPAN-PROV", "SPAN-EMPTY", "SPAN-IMPL", "READER-SIB", "GRAMMAR", "MODE-PAIR", "D:POISON*", "D:KEEP*", "D:LIFO*", "MODE-PURE", "ORDER-ARMS", "ERR-SPAN", "D:ALT-POS*", "MACRO-EXPAND"],
     "C17": ["K", "D:ALT-LINEAR", "D:ALT-POS", "ERR-SPAN", "MODE-PAIR", "GRAMMAR", "ERR-PROV", "NO-BACKTRACK", "HELPER-PROV", "ORDER-ARMS", "MERGE-ARMS"],
     "C18": ["HOOKS-WRITERS", "HOOKS-TOKEN", "HOOKS-SAVE-REWIND", "SUB-INPUT", "D:POISON", "D:KEEP", "K", "GRAMMAR", "MODE-PAIR", "NO-BACKTRACK", "HELPER-PROV", "CTOR-INV"],
     "C19": ["UNSAFE-INV", "MAYBEUNINIT", "CONTAINER-PROV", "HELPER-PROV"],
